@@ -427,4 +427,155 @@ theorem tinv_step (s : TState κ) (k : κ) (hn : (keys s.cache.items).Nodup) (hi
     · have := hi a u (lookup_cset_other _ _ _ _ _ e hn hu)
       exact ⟨this.1, Nat.lt_succ_of_lt this.2⟩
 
+/-! ### A recently used key survives (completeness direction) -/
+
+/-- Position of the first occurrence of `k` (length of the list if absent). -/
+def posOf (k : κ) : List κ → Nat
+  | [] => 0
+  | a :: as => if a = k then 0 else posOf k as + 1
+
+theorem posOf_lt_length (k : κ) (l : List κ) (h : k ∈ l) : posOf k l < l.length := by
+  induction l with
+  | nil => simp at h
+  | cons a as ih =>
+    by_cases e : a = k
+    · simp [posOf, e]
+    · have : k ∈ as := by
+        rcases List.mem_cons.mp h with h1 | h1
+        · exact absurd h1.symm e
+        · exact h1
+      have := ih this
+      simp [posOf, e]; omega
+
+theorem erase_cons_eq (k' : κ) (p : κ × ν) (xs : List (κ × ν)) :
+    erase k' (p :: xs) = if p.1 = k' then erase k' xs else p :: erase k' xs := by
+  by_cases e : p.1 = k' <;> simp [erase, List.filter_cons, e]
+
+theorem posOf_erase_le (k k' : κ) (hne : k ≠ k') (xs : List (κ × ν)) :
+    posOf k (keys (erase k' xs)) ≤ posOf k (keys xs) := by
+  induction xs with
+  | nil => simp [erase, keys, posOf]
+  | cons p xs ih =>
+    rw [erase_cons_eq]
+    by_cases e1 : p.1 = k'
+    · have e3 : ¬ p.1 = k := fun e => hne (e.symm.trans e1)
+      rw [if_pos e1]
+      have : posOf k (keys (p :: xs)) = posOf k (keys xs) + 1 := by
+        show posOf k (p.1 :: keys xs) = _
+        simp [posOf, e3]
+      omega
+    · rw [if_neg e1]
+      show posOf k (p.1 :: keys (erase k' xs)) ≤ posOf k (p.1 :: keys xs)
+      by_cases e2 : p.1 = k
+      · simp [posOf, e2]
+      · simp only [posOf, e2, if_false]; omega
+
+theorem posOf_dropLast (k : κ) (l : List κ) (h : k ∈ l) (hp : posOf k l + 1 < l.length) :
+    k ∈ l.dropLast ∧ posOf k l.dropLast = posOf k l := by
+  induction l with
+  | nil => simp at h
+  | cons a as ih =>
+    have hne : as ≠ [] := by
+      intro e; subst e; simp [posOf] at hp
+    obtain ⟨b, bs, rfl⟩ := List.exists_cons_of_ne_nil hne
+    by_cases e : a = k
+    · subst e; simp [posOf]
+    · have hk : k ∈ b :: bs := by
+        rcases List.mem_cons.mp h with h1 | h1
+        · exact absurd h1.symm e
+        · exact h1
+      have hu : posOf k (a :: b :: bs) = posOf k (b :: bs) + 1 := by
+        show (if a = k then 0 else posOf k (b :: bs) + 1) = _
+        rw [if_neg e]
+      have hp' : posOf k (b :: bs) + 1 < (b :: bs).length := by
+        rw [hu] at hp; simp only [List.length_cons] at hp ⊢; omega
+      have := ih hk hp'
+      rw [List.dropLast_cons_cons]
+      refine ⟨List.mem_cons_of_mem _ this.1, ?_⟩
+      rw [hu]
+      show (if a = k then 0 else posOf k (b :: bs).dropLast + 1) = _
+      rw [if_neg e, this.2]
+
+/-- `k` is cached and at most `j` places from the most-recently-used end. -/
+def Near (k : κ) (j : Nat) (c : Lru κ ν) : Prop :=
+  k ∈ keys c.items ∧ posOf k (keys c.items) ≤ j
+
+theorem near_front (c : Lru κ ν) (k k' : κ) (w : ν) (j : Nat) (hn : Near k j c) :
+    Near k (j + 1) { c with items := (k', w) :: erase k' c.items } := by
+  obtain ⟨hm, hp⟩ := hn
+  by_cases e : k' = k
+  · subst e
+    exact ⟨by simp [keys], by simp [keys, posOf]⟩
+  · have hne : k ≠ k' := fun e' => e e'.symm
+    refine ⟨?_, ?_⟩
+    · show k ∈ k' :: keys (erase k' c.items)
+      exact List.mem_cons_of_mem _ (mem_keys_erase.mpr ⟨hm, hne⟩)
+    · show posOf k (k' :: keys (erase k' c.items)) ≤ j + 1
+      have := posOf_erase_le k k' hne c.items
+      simp only [posOf, e, if_false]; omega
+
+/-- One operation other than `clear` pushes a cached key at most one place towards the
+least-recently-used end, and cannot evict it while it is not the last of a full cache. -/
+theorem near_step (c : Lru κ ν) (n : Nat) (hc : c.cap = some n) (k : κ) (j : Nat)
+    (hn : Near k j c) (hj : j + 1 < n) (op : Op κ ν) (hop : op ≠ Op.clear) :
+    Near k (j + 1) (step c op).1 := by
+  have hn' := hn
+  obtain ⟨hm, hp⟩ := hn
+  cases op with
+  | clear => exact absurd rfl hop
+  | has k' => exact ⟨hm, Nat.le_succ_of_le hp⟩
+  | get k' =>
+    show Near k (j + 1) (cget c k').1
+    unfold cget
+    cases hl : lookup k' c.items with
+    | none => exact ⟨hm, Nat.le_succ_of_le hp⟩
+    | some w => exact near_front c k k' w j hn'
+  | set k' w =>
+    show Near k (j + 1) (cset c k' w)
+    unfold cset
+    have hd : isDisabled c = false := by
+      unfold isDisabled; rw [hc]; simp; omega
+    rw [hd]
+    simp only [Bool.false_eq_true, if_false]
+    split
+    · exact near_front c k k' w j hn'
+    · rename_i hmiss
+      have hk' : k' ∉ keys c.items := by
+        apply (lookup_none_iff k' c.items).mp
+        cases hl : lookup k' c.items with
+        | none => rfl
+        | some x => simp [hl] at hmiss
+      have e : ¬ k' = k := fun e => hk' (e ▸ hm)
+      split
+      · rename_i hfull
+        have hlen : n ≤ c.items.length := by
+          unfold isFull at hfull; rw [hc] at hfull; simpa using hfull
+        have hlk : (keys c.items).length = c.items.length := by simp [keys]
+        have := posOf_dropLast k (keys c.items) hm (by omega)
+        refine ⟨?_, ?_⟩
+        · show k ∈ k' :: keys c.items.dropLast
+          rw [keys_dropLast]; exact List.mem_cons_of_mem _ this.1
+        · show posOf k (k' :: keys c.items.dropLast) ≤ j + 1
+          rw [keys_dropLast]
+          simp only [posOf, e, if_false]; omega
+      · refine ⟨?_, ?_⟩
+        · show k ∈ k' :: keys c.items
+          exact List.mem_cons_of_mem _ hm
+        · show posOf k (k' :: keys c.items) ≤ j + 1
+          simp only [posOf, e, if_false]; omega
+
+theorem near_run (n : Nat) (k : κ) (h : List (Op κ ν)) :
+    ∀ (c : Lru κ ν) (j : Nat), c.cap = some n → Near k j c → j + h.length < n →
+      (∀ op ∈ h, op ≠ Op.clear) → Near k (j + h.length) (run c h) := by
+  induction h with
+  | nil => intro c j _ hn _ _; simpa [run] using hn
+  | cons op h ih =>
+    intro c j hc hn hl hno
+    rw [run_cons]
+    simp only [List.length_cons] at hl ⊢
+    have h1 := near_step c n hc k j hn (by omega) op (hno op (by simp))
+    have := ih (step c op).1 (j + 1) (by rw [step_cap]; exact hc) h1 (by omega)
+      (fun o ho => hno o (List.mem_cons_of_mem _ ho))
+    have e : j + (h.length + 1) = j + 1 + h.length := by omega
+    rw [e]; exact this
 end Djc.Proofs.Lru
